@@ -324,6 +324,7 @@ type c09Harness struct {
 	dir          string
 	lo, hi       *loadedEpoch
 	caseOps      []string
+	seqDeadlocks int
 	leaked       map[int]bool // goroutine ids parked for ever by an earlier deadlocked phase
 	bad          map[string]bool
 	stableClosed atomic.Int64
@@ -700,6 +701,19 @@ func c09Goroutines() []c09G {
 		out = append(out, c09G{id, st, blk})
 	}
 	return out
+}
+
+// c09Watchdog: 20 s for the first stuck sequential operation; once one was reported (the run is already a violation and
+// its abandoned goroutines stay parked) later ones are given 3 s, then 1 s, so that a change that makes a whole class
+// of operations hang is reported with its inputs instead of running into the harness timeout
+func c09Watchdog(n int) time.Duration {
+	switch {
+	case n == 0:
+		return 20 * time.Second
+	case n < 5:
+		return 3 * time.Second
+	}
+	return time.Second
 }
 
 func c09ParkedInRWMutex(g c09G) bool {
@@ -1259,7 +1273,7 @@ func TestVerifC09(t *testing.T) {
 		var r res
 		select {
 		case r = <-ch:
-		case <-time.After(20 * time.Second):
+		case <-time.After(c09Watchdog(h.seqDeadlocks)):
 			parked := ""
 			for _, g := range c09Goroutines() {
 				if c09ParkedInRWMutex(g) {
@@ -1271,6 +1285,7 @@ func TestVerifC09(t *testing.T) {
 				r = <-ch // slow, not stuck
 				break
 			}
+			h.seqDeadlocks++
 			h.caseOps = append(h.caseOps, line)
 			s.Violation("operation `"+line+"` never returns: a goroutine is parked in MultiEpoch.mu ("+parked+") with no operation in flight that could release it; an earlier operation of this case left the lock held",
 				"C09:deadlock:sequential:"+strings.Fields(line)[0], s.Replay(h.caseOps))
